@@ -242,6 +242,11 @@ func GenerateProp(pr *Program, prop string, onlyFunc string) *PropResult {
 		res.Reports = append(res.Reports, rep)
 		res.Funcs = append(res.Funcs, pr.fnTagOf(fi))
 	}
+	if onlyFunc == "" || onlyFunc == "analysis" {
+		if st := pr.RunAnalyses(prop); len(st) > 0 {
+			res.Reports = append(res.Reports, &FuncReport{Func: "static analyses", Pkg: "(all consensus packages)", Prop: prop, Obls: st})
+		}
+	}
 	for _, r := range res.Reports {
 		for _, o := range r.Obls {
 			if prop == "" || o.Prop == prop || o.Prop == "" || o.Prop == "*" {
